@@ -278,6 +278,71 @@ def keys_consistent(ctx, res):
 # op sets
 # =====================================================================================
 
+def ep_pin_lattice(stride):
+    """en passant with capturers on BOTH sides of the double-stepped pawn and one of them (or the pusher's
+    neighbour on the other side) pinned to its king along every line: for each file of the pushed pawn, each
+    of the two capturers, each of the 8 directions, every king distance and every slider distance on that line
+    (squares in between empty), both colours; the enemy king on the first of a few far squares that the SPEC
+    accepts.  Positions the SPEC rejects are skipped by the oracle (`S` = -)."""
+    ops = []
+    n = 0
+    for white in (True, False):
+        rank = 5 if white else 4                     # rank of the three pawns (1-based)
+        for f in range(1, 9):                        # file of the pushed pawn
+            caps = [c for c in (f - 1, f + 1) if 1 <= c <= 8]
+            for pinned in caps:
+                for dx, dy in ((1, 0), (-1, 0), (0, 1), (0, -1), (1, 1), (1, -1), (-1, 1), (-1, -1)):
+                    for kd in range(1, 8):
+                        kx, ky = pinned + dx * kd, rank + dy * kd
+                        if not (1 <= kx <= 8 and 1 <= ky <= 8):
+                            break
+                        for sd in range(1, 8):
+                            sx, sy = pinned - dx * sd, rank - dy * sd
+                            if not (1 <= sx <= 8 and 1 <= sy <= 8):
+                                break
+                            n += 1
+                            if n % stride:
+                                continue
+                            board = {}
+                            ok = True
+                            own, enemy = ("P", "p") if white else ("p", "P")
+                            for c in caps:
+                                board[(c, rank)] = own
+                            board[(f, rank)] = enemy
+                            line = [(pinned + dx * i, rank + dy * i) for i in range(1, kd)] + \
+                                   [(pinned - dx * i, rank - dy * i) for i in range(1, sd)]
+                            if any(sq in board for sq in line) or (kx, ky) in board or (sx, sy) in board:
+                                continue
+                            board[(kx, ky)] = "K" if white else "k"
+                            slider = ("r" if dx == 0 or dy == 0 else "b") if white else ("R" if dx == 0 or dy == 0 else "B")
+                            if (sd + kd) % 2:
+                                slider = "q" if white else "Q"
+                            board[(sx, sy)] = slider
+                            ek = None
+                            for cand in ((1, 8), (8, 8), (1, 1), (8, 1), (5, 8), (4, 1), (1, 4), (8, 5)):
+                                if cand not in board and cand not in line and abs(cand[0] - kx) > 1 or abs(cand[1] - ky) > 1:
+                                    if cand not in board and cand not in line:
+                                        ek = cand
+                                        break
+                            if ek is None:
+                                continue
+                            board[ek] = "k" if white else "K"
+                            rows = []
+                            for y in range(8, 0, -1):
+                                row, run = "", 0
+                                for x in range(1, 9):
+                                    ch = board.get((x, y))
+                                    if ch is None:
+                                        run += 1
+                                    else:
+                                        row += (str(run) if run else "") + ch
+                                        run = 0
+                                rows.append(row + (str(run) if run else ""))
+                            ept = "abcdefgh"[f - 1] + ("6" if white else "3")
+                            ops += ["fen %s %s - %s 0 1" % ("/".join(rows), "w" if white else "b", ept), "gen all", "gen cap"]
+    return ops
+
+
 def movegen_ops(ctx, scale=1):
     q = ctx.quick
     ops = []
@@ -292,6 +357,8 @@ def movegen_ops(ctx, scale=1):
     # corner included, promotions included) and every king / rook move off a home square, then the
     # generation from the generated successor
     ops += C.genops("rights", 0, "fmt", "gen all", "gen cap")
+    # en passant with two capturers, one of them pinned along any line (exhaustive in the thorough tier)
+    ops += ep_pin_lattice(7 if q else 1)
     return ops
 
 
